@@ -31,6 +31,7 @@ type probe struct {
 type outRange struct {
 	label      string
 	start, end uintptr
+	keep       []byte // keeps the result alive: a collected result's memory could be reused by a later one
 }
 
 var spareChoices = []int{0, 1, 7, 15, 16, 17, 32, 64}
@@ -99,7 +100,7 @@ func (p *probe) out(op, label string, b []byte) {
 			p.t.Fatalf("%s: %s returned %q sharing memory with earlier result %q", p.desc, op, label, o.label)
 		}
 	}
-	p.outs = append(p.outs, outRange{label, start, end})
+	p.outs = append(p.outs, outRange{label, start, end, b})
 }
 
 // scribble overwrites every arena's argument bytes (simulating a caller that reuses its buffer
